@@ -8,6 +8,7 @@ From Coq Require String.
 Import String.StringSyntax.
 From Coq Require Import Sorting.Permutation.
 From Sccache Require Import Base.Sx Model.ArgTypes Model.Args Gen.C01ArgTables Model.ArgsInst Proofs.Args Proofs.ArgTables.
+From Sccache Require Model.Stats Model.ReqSM Proofs.ReqSM Proofs.ArgsReq.
 Import ListNotations.
 Local Open Scope string_scope.
 
@@ -43,6 +44,13 @@ Theorem C01_no_argument_lost :
     accounted T E al xl p output.
 Proof. exact no_argument_lost. Qed.
 Print Assumptions C01_no_argument_lost.
+
+(* The model's fuel never runs out: parse_arguments is a total function of the argument vector for any tables and any
+   @-files, self-including ones too (the expansion counter of ExpandIncludeFile — the fix for the hang — bounds it). *)
+Theorem C01_parse_total :
+  forall (T : tables) (E : env) (argv : list bytes), parse_arguments T E argv <> RFuel.
+Proof. exact parse_never_out_of_fuel. Qed.
+Print Assumptions C01_parse_total.
 
 (* ... and with the generated tables every argument is in a list or of a dedicated kind (never "unreachable") *)
 Theorem C01_every_argument_placed :
@@ -120,6 +128,79 @@ Theorem C01_resynthesis_fixpoint_refuted :
                  is_ok (parse_arguments the_tables gcc_env (compile_command the_tables gcc_env p)) = false.
 Proof. exact resynthesis_fixpoint_refuted. Qed.
 Print Assumptions C01_resynthesis_fixpoint_refuted.
+
+(* Partial form of the re-synthesis statement (the full one is refuted above): its per-argument core, for ALL values.
+   For every row the search returns for its own spelling: a flag word, a `spelling value` pair, and the joined word
+   `spelling[delimiter]value` are read back by the tokenizer as an argument of that row with exactly that value, and the
+   words that follow are tokenised as if it had not been there.  (Joined rows without delimiter need a non-empty value
+   — the empty case is finding C01-S24 — and the four families of [family_exceptions] are not claimed; none of them is
+   rendered in joined form.)
+   MISSING for the full statement: the fold over the whole re-synthesised command — that re-classifying the re-read
+   arguments in their new order (preprocessor, dependency, unhashed, common, arch) reproduces the same lists, outputs
+   and language.  That part is validated, not proved: the `parse` leg re-parses the re-synthesised command with the
+   model AND the real parse_arguments on every generated vector and the monitor compares the two requests. *)
+Theorem C01_resynthesis_fixpoint_partial :
+  forall sel i, In i (rows sel) -> effective sel i = i -> first_is_at (flag_str i) = false ->
+  forall dd fs left f rest,
+  match i with
+  | IFlag s c =>
+      dd_passes dd s ->
+      tokenize (S f) the_tables sel dd fs left (s :: rest) =
+      (let '(l, e) := tokenize f the_tables sel dd fs left rest in (AFlag s c :: l, e))
+  | ITake s vt d0 c =>
+      (forall d v, sep_disp d0 = Some d -> first_is_at v = false -> dd_passes dd s ->
+         tokenize (S f) the_tables sel dd fs left (s :: v :: rest) =
+         (let '(l, e) := tokenize f the_tables sel dd fs left rest in (AWith s c v d :: l, e))) /\
+      (forall dl d v, joined_disp d0 = Some (dl, d) -> is_exception sel s = false -> (dl = None -> v <> []) ->
+         dd_passes dd (joined_word s dl v) ->
+         tokenize (S f) the_tables sel dd fs left (joined_word s dl v :: rest) =
+         (let '(l, e) := tokenize f the_tables sel dd fs left rest in (AWith s c v d :: l, e)))
+  end.
+Proof. exact rerender_retokenizes. Qed.
+Print Assumptions C01_resynthesis_fixpoint_partial.
+
+(* ---- request level (Model/ReqSM.v, the request state machine shared with C09/C14) ---- *)
+Import Model.Stats Model.ReqSM Proofs.ReqSM.
+
+(* whatever the storage does (every fault assignment), a request the server finishes gives the client exactly the
+   direct run's exit status, stdout, stderr and output files; in particular a hit runs no compiler and replays what
+   the direct run would produce.  Hypotheses: the two keys are sound ([consistent], the subject of C02/C04), the cache
+   only holds what earlier requests stored ([Inv], an invariant of every history: C09_history_transparent), a compiler
+   that exits 0 has written its outputs ([sane]), the output directory is writable. *)
+Theorem C01_hit_replays_stored :
+  forall w st t f cc,
+  consistent w -> Inv w st -> sane (w t) -> f_outdir_ok f = true ->
+  r_outcome (snd (execute f cc (w t) st)) = Some OHit ->
+  r_cc_runs (snd (execute f cc (w t) st)) = 0%N /\
+  exists s so se, r_client (snd (execute f cc (w t) st)) = CFinished s so se /\
+                  (s, so, se, r_outputs (snd (execute f cc (w t) st))) = direct (w t).
+Proof. exact Proofs.ArgsReq.hit_replays_stored. Qed.
+Print Assumptions C01_hit_replays_stored.
+
+(* a failing build is handed to the client verbatim ([transparent]) and never stored *)
+Theorem C01_failure_verbatim_never_stored :
+  forall w st t f cl cc,
+  consistent w -> Inv w st -> sane (w t) -> f_outdir_ok f = true ->
+  transparent (w t) (snd (fst (request f cl cc (w t) st))) /\
+  (fst (fst (fst (direct (w t)))) <> 0%N -> cs_res (fst (fst (request f cl cc (w t) st))) = cs_res st).
+Proof.
+  intros w st t f cl cc HC HI HS HO. split.
+  - apply request_transparent; assumption.
+  - intros Hd. apply failed_never_stored; assumption.
+Qed.
+Print Assumptions C01_failure_verbatim_never_stored.
+
+(* not a compilation / cannot cache / unsupported compiler: nothing runs on the server, the cache is untouched, the
+   client re-runs the original argument vector itself *)
+Theorem C01_noncacheable_passthrough :
+  forall f cl cc o st,
+  cl <> QCompile ->
+  fst (fst (request f cl cc o st)) = st /\
+  (r_client (snd (fst (request f cl cc o st))) = CUnhandled \/ r_client (snd (fst (request f cl cc o st))) = CUnsupported) /\
+  r_pp_runs (snd (fst (request f cl cc o st))) = 0%N /\ r_cc_runs (snd (fst (request f cl cc o st))) = 0%N /\
+  r_outputs (snd (fst (request f cl cc o st))) = [].
+Proof. exact Proofs.ArgsReq.noncacheable_passthrough. Qed.
+Print Assumptions C01_noncacheable_passthrough.
 
 (* non-vacuity *)
 Example C01_ordinary_command :
